@@ -23,8 +23,18 @@ REPO = os.environ.get("VERIF_REPO", "/repo")
 
 
 def load_corpus():
+    """Textual mutants / benign variants of sa/mutants.py plus the independently seeded changes kept under seeded/<id>/
+    (patch.diff, applied with `git apply`): each must be reported by the check of its own property."""
     from .mutants import MUTANTS, BENIGN
-    return MUTANTS, BENIGN
+    seeds = []
+    sd = os.path.join(VERIF, "seeded")
+    if os.path.isdir(sd):
+        for d in sorted(os.listdir(sd)):
+            pf, mf = os.path.join(sd, d, "patch.diff"), os.path.join(sd, d, "meta.json")
+            if os.path.isfile(pf) and os.path.isfile(mf):
+                prop = json.load(open(mf)).get("property") or d.split("-")[0]
+                seeds.append({"id": f"seed-{d}", "prop": prop, "rule": None, "edits": [], "patch": pf})
+    return list(MUTANTS) + seeds, BENIGN
 
 
 def apply_edits(root, edits):
@@ -45,6 +55,10 @@ def run_one(kind, m, props):
         err = apply_edits(tmp, m["edits"])
         if err:
             return {"id": m["id"], "kind": kind, "status": "stale", "detail": err}
+        if m.get("patch"):
+            r = subprocess.run(["git", "apply", "--whitespace=nowarn", m["patch"]], cwd=tmp, capture_output=True, text=True)
+            if r.returncode != 0:
+                return {"id": m["id"], "kind": kind, "status": "stale", "detail": "patch does not apply: " + r.stderr.strip()[:200]}
         # the variant must still compile
         for rel, _, _ in m["edits"]:
             try:
